@@ -52,3 +52,198 @@ harness! {
         cover!(checkers.count_ones() == 2);
     }
 }
+
+// ------------------------------------------------------------------------------------------------
+// C01 item 3 / C06 item 3 / C07: the generators, by the witness technique (DESIGN.md 3.4).
+// The generators are generic in the sink; the harness passes a sink holding one ARBITRARY move w
+// and counts how often exactly w is pushed.  "hits == [w is in the specified set]" for arbitrary
+// w is "exactly the specified set, each move exactly once".  The sink can also refuse the k-th
+// push (symbolic k), which checks the early-exit behaviour that has_legal_moves relies on.
+// ------------------------------------------------------------------------------------------------
+pub struct WSink { pub w: Move, pub hits: u32, pub n: u32, pub fail_at: u32, pub failed: bool, pub pushed_after_fail: bool }
+impl WSink {
+    pub fn new(w: Move) -> WSink {
+        let fail_at = vk::any_u32();
+        WSink { w, hits: 0, n: 0, fail_at, failed: false, pushed_after_fail: false }
+    }
+}
+impl MaybeMovePush for WSink {
+    type Err = ();
+    fn push(&mut self, m: Move) -> Result<(), ()> {
+        if self.failed { self.pushed_after_fail = true; }
+        if self.n == self.fail_at { self.failed = true; return Err(()); }
+        self.n += 1;
+        if m == self.w { self.hits += 1; }
+        Ok(())
+    }
+}
+/// after a run: if the sink never refused, w was pushed exactly `want` times; if it refused, the
+/// generator returned Err at once (nothing was pushed afterwards) and w was pushed at most once
+fn check_sink(s: &WSink, res: Result<(), ()>, want: bool) {
+    assert!(!s.pushed_after_fail);
+    assert!(res.is_err() == s.failed);
+    if !s.failed { assert!(s.hits == if want { 1 } else { 0 }); } else { assert!(s.hits <= 1); if s.hits == 1 { assert!(want); } }
+}
+fn target_class(b: &Board, w: rs::RMove) -> (bool, bool) {
+    // (is a non-capture, is a capture) by the property's definition: destination occupied or en passant
+    let occupied = rs::ci(b.r.cells[w.dst as usize]) != 0 || w.kind == rs::K_EP;
+    (!occupied, occupied)
+}
+fn any_w(cell_code: u8) -> Move {
+    let k = vk::any_u8(); vk::assume(1 <= k && k < 10);
+    let s = ab::any_sq(); let d = ab::any_sq();
+    let m = unsafe { Move::new_unchecked(rs::mk_kind(k), ab::cell(cell_code), ab::coord(s), ab::coord(d)) };
+    #[cfg(not(kani))]
+    vk::note(&format!("witness move kind={:?} cell={:?} src={} dst={}", m.kind(), m.src_cell(), m.src(), m.dst()));
+    m
+}
+
+macro_rules! gen_piece {
+    ($name:ident, $cval:expr, $white:expr, $piece:expr, $simple:expr, $capture:expr, $unwind:expr, $($call:tt)*) => {
+        harness! {
+            #[kani::unwind($unwind)]
+            #[kani::stub(crate::attack::rook, crate::verif_anyboard::stub_rook)]
+            #[kani::stub(crate::attack::bishop, crate::verif_anyboard::stub_bishop)]
+            fn $name() {
+                let b = ab::any_board_side(if $white { Color::White } else { Color::Black });
+                ab::assume_at_most_16(&b);
+                let w = any_w(rs::code($white, $piece));
+                let rw = rs::rmove(w);
+                let mut sink = WSink::new(w);
+                let res = MoveGenImpl::new(&b, &mut sink, $cval).$($call)*;
+                let (noncap, cap) = target_class(&b, rw);
+                let want = rs::ref_pseudo(&b.r, rw) && rw.kind == rs::K_SIMPLE && (($simple && noncap) || ($capture && cap));
+                check_sink(&sink, res, want);
+                cover!(want && !sink.failed);
+                cover!(sink.failed);
+            }
+        }
+    };
+}
+use generic::{Black as GB, White as GW};
+// all = (true, true); capture-only = (false, true); non-capture = (true, false); (false, false) is
+// what gen_simple_promote passes
+gen_piece!(gen_knight_tt_w, GW, true, rs::KNIGHT, true, true, 17, gen_knight::<true, true>());
+gen_piece!(gen_knight_tt_b, GB, false, rs::KNIGHT, true, true, 17, gen_knight::<true, true>());
+gen_piece!(gen_knight_tf_w, GW, true, rs::KNIGHT, true, false, 17, gen_knight::<true, false>());
+gen_piece!(gen_knight_tf_b, GB, false, rs::KNIGHT, true, false, 17, gen_knight::<true, false>());
+gen_piece!(gen_knight_ft_w, GW, true, rs::KNIGHT, false, true, 17, gen_knight::<false, true>());
+gen_piece!(gen_knight_ft_b, GB, false, rs::KNIGHT, false, true, 17, gen_knight::<false, true>());
+gen_piece!(gen_knight_ff_w, GW, true, rs::KNIGHT, false, false, 17, gen_knight::<false, false>());
+gen_piece!(gen_knight_ff_b, GB, false, rs::KNIGHT, false, false, 17, gen_knight::<false, false>());
+gen_piece!(gen_king_tt_w, GW, true, rs::KING, true, true, 17, gen_king::<true, true>());
+gen_piece!(gen_king_tt_b, GB, false, rs::KING, true, true, 17, gen_king::<true, true>());
+gen_piece!(gen_king_tf_w, GW, true, rs::KING, true, false, 17, gen_king::<true, false>());
+gen_piece!(gen_king_tf_b, GB, false, rs::KING, true, false, 17, gen_king::<true, false>());
+gen_piece!(gen_king_ft_w, GW, true, rs::KING, false, true, 17, gen_king::<false, true>());
+gen_piece!(gen_king_ft_b, GB, false, rs::KING, false, true, 17, gen_king::<false, true>());
+gen_piece!(gen_king_ff_w, GW, true, rs::KING, false, false, 17, gen_king::<false, false>());
+gen_piece!(gen_king_ff_b, GB, false, rs::KING, false, false, 17, gen_king::<false, false>());
+// sliders, one class per harness (the private per-class generator); the three-call wrapper gen_brq
+// is covered by the dispatcher obligation
+gen_piece!(gen_bishop_tt_w, GW, true, rs::BISHOP, true, true, 17, do_gen_brq::<true, true, true, false>(Piece::Bishop));
+gen_piece!(gen_bishop_tt_b, GB, false, rs::BISHOP, true, true, 17, do_gen_brq::<true, true, true, false>(Piece::Bishop));
+gen_piece!(gen_rook_tt_w, GW, true, rs::ROOK, true, true, 17, do_gen_brq::<true, true, false, true>(Piece::Rook));
+gen_piece!(gen_rook_tt_b, GB, false, rs::ROOK, true, true, 17, do_gen_brq::<true, true, false, true>(Piece::Rook));
+gen_piece!(gen_queen_tt_w, GW, true, rs::QUEEN, true, true, 28, do_gen_brq::<true, true, true, true>(Piece::Queen));
+gen_piece!(gen_queen_tt_b, GB, false, rs::QUEEN, true, true, 28, do_gen_brq::<true, true, true, true>(Piece::Queen));
+
+harness! {
+    fn gen_allowed_mask_flags() {
+        // the only place the SIMPLE / CAPTURE flags enter the piece generators
+        let b = ab::any_board();
+        let t = ab::any_sq();
+        let mut sink = WSink::new(Move::NULL);
+        let white = vk::any_bool();
+        let (own, enemy) = if white { (b.white, b.black) } else { (b.black, b.white) };
+        macro_rules! chk { ($C:expr) => {{
+            let g = MoveGenImpl::new(&b, &mut sink, $C);
+            assert!(g.allowed_mask::<true, true>().has(ab::coord(t)) == !own.has(ab::coord(t)));
+            assert!(g.allowed_mask::<true, false>().has(ab::coord(t)) == !b.all.has(ab::coord(t)));
+            assert!(g.allowed_mask::<false, true>().has(ab::coord(t)) == enemy.has(ab::coord(t)));
+            assert!(!g.allowed_mask::<false, false>().has(ab::coord(t)));
+        }}; }
+        if white { chk!(GW) } else { chk!(GB) }
+    }
+}
+
+macro_rules! gen_pawn_simple {
+    ($name:ident, $cval:expr, $white:expr, $np:expr, $p:expr) => {
+        harness! {
+            #[kani::unwind(17)]
+            fn $name() {
+                let b = ab::any_board_side(if $white { Color::White } else { Color::Black });
+                ab::assume_at_most_16(&b);
+                ab::assume_no_backrank_pawns(&b);
+                let w = any_w(rs::code($white, rs::PAWN));
+                let rw = rs::rmove(w);
+                let mut sink = WSink::new(w);
+                let res = MoveGenImpl::new(&b, &mut sink, $cval).gen_pawn_simple::<{ $np }, { $p }>();
+                let straight = rw.src % 8 == rw.dst % 8;
+                let want = rs::ref_pseudo(&b.r, rw) && straight
+                    && (($np && (rw.kind == rs::K_SIMPLE || rw.kind == rs::K_DOUBLE)) || ($p && rs::is_promo(rw.kind)));
+                check_sink(&sink, res, want);
+                cover!(want && rw.kind == rs::K_DOUBLE);
+                cover!(want && rs::is_promo(rw.kind));
+            }
+        }
+    };
+}
+gen_pawn_simple!(gen_pawn_simple_tt_w, GW, true, true, true);
+gen_pawn_simple!(gen_pawn_simple_tt_b, GB, false, true, true);
+gen_pawn_simple!(gen_pawn_simple_tf_w, GW, true, true, false);
+gen_pawn_simple!(gen_pawn_simple_tf_b, GB, false, true, false);
+gen_pawn_simple!(gen_pawn_simple_ft_w, GW, true, false, true);
+gen_pawn_simple!(gen_pawn_simple_ft_b, GB, false, false, true);
+
+macro_rules! gen_pawn_other {
+    ($name:ident, $cval:expr, $white:expr, $piece:expr, $method:ident, $kindpred:expr) => {
+        harness! {
+            #[kani::unwind(17)]
+            #[kani::stub(crate::attack::rook, crate::verif_anyboard::stub_rook)]
+            #[kani::stub(crate::attack::bishop, crate::verif_anyboard::stub_bishop)]
+            fn $name() {
+                let b = ab::any_board_side(if $white { Color::White } else { Color::Black });
+                ab::assume_at_most_16(&b);
+                ab::assume_no_backrank_pawns(&b);
+                ab::assume_ep_consistent(&b);
+                let w = any_w(rs::code($white, $piece));
+                let rw = rs::rmove(w);
+                let mut sink = WSink::new(w);
+                let res = MoveGenImpl::new(&b, &mut sink, $cval).$method();
+                let pred: fn(rs::RMove) -> bool = $kindpred;
+                let want = rs::ref_pseudo(&b.r, rw) && pred(rw);
+                check_sink(&sink, res, want);
+                cover!(want);
+            }
+        }
+    };
+}
+gen_pawn_other!(gen_pawn_capture_w, GW, true, rs::PAWN, gen_pawn_capture, |m| m.src % 8 != m.dst % 8 && (m.kind == rs::K_SIMPLE || rs::is_promo(m.kind)));
+gen_pawn_other!(gen_pawn_capture_b, GB, false, rs::PAWN, gen_pawn_capture, |m| m.src % 8 != m.dst % 8 && (m.kind == rs::K_SIMPLE || rs::is_promo(m.kind)));
+gen_pawn_other!(gen_pawn_enpassant_w, GW, true, rs::PAWN, gen_pawn_enpassant, |m| m.kind == rs::K_EP);
+gen_pawn_other!(gen_pawn_enpassant_b, GB, false, rs::PAWN, gen_pawn_enpassant, |m| m.kind == rs::K_EP);
+gen_pawn_other!(gen_castling_w, GW, true, rs::KING, gen_castling, |m| m.kind == rs::K_CASTLE_K || m.kind == rs::K_CASTLE_Q);
+gen_pawn_other!(gen_castling_b, GB, false, rs::KING, gen_castling, |m| m.kind == rs::K_CASTLE_K || m.kind == rs::K_CASTLE_Q);
+
+// C07 (b): the legality filter forwards exactly the legal moves, and propagates the sink's answer
+harness! {
+    #[kani::unwind(14)]
+    #[kani::stub(crate::attack::rook, crate::verif_anyboard::stub_rook)]
+    #[kani::stub(crate::attack::bishop, crate::verif_anyboard::stub_bishop)]
+    fn c07_legal_filter_forwards_iff_is_legal() {
+        let b = ab::any_board();
+        ab::assume_one_king_each(&b);
+        let k = vk::any_u8(); vk::assume(1 <= k && k < 10);
+        let mv = ab::any_move_of_kind(rs::mk_kind(k));
+        let mut sink = WSink::new(mv);
+        let expect = Checker::new(&b, DefaultPrechecker::new(&b)).is_legal(mv);
+        let mut f = LegalFilter::new(&b, &mut sink);
+        let r = f.push(mv);
+        assert!(sink.n + if sink.failed { 1 } else { 0 } == if expect { 1 } else { 0 });
+        assert!(r.is_err() == sink.failed);
+        if !sink.failed { assert!(sink.hits == if expect { 1 } else { 0 }); }
+        let mut e = ErrOnFirst;
+        assert!(MaybeMovePush::push(&mut e, mv).is_err());
+    }
+}
